@@ -121,6 +121,19 @@ TEMPLATES = [
     ("overbrace-underbrace", "<mrow><mover><mover><mrow><mi>x</mi><mo>+</mo>{a}</mrow><mo>&#x23DE;</mo></mover>{b}</mover><mo>+</mo><munder><munder><mrow><mi>y</mi><mo>+</mo>{c}</mrow><mo>&#x23DF;</mo></munder>{d}</munder></mrow>"),
     ("text-and-numbers", "<mrow><mtext>if&#xA0;</mtext><mi>x</mi><mo>=</mo>{a}<mtext>&#xA0;then&#xA0;</mtext><mi>y</mi><mo>=</mo>{b}</mrow>"),
     ("ms-string", "<mrow><ms>abc</ms><mo>+</mo>{a}</mrow>"),
+    # notations the braille rules single out
+    ("binomial-table", "<mrow><mo>(</mo><mtable><mtr><mtd>{a}</mtd></mtr><mtr><mtd>{b}</mtd></mtr></mtable><mo>)</mo></mrow>"),
+    ("mod-mi", "<mrow>{a}<mi>mod</mi>{b}</mrow>"),
+    ("mod-mo", "<mrow>{a}<mo>mod</mo>{b}<mo>=</mo>{c}<mtext>rem</mtext>{d}</mrow>"),
+    ("repeating-decimal", "<mrow><mn>0.</mn><mover><mn>3</mn><mo>.</mo></mover><mo>+</mo>{a}</mrow>"),
+    ("linear-mixed-number", "<mrow><mn>3</mn><mo>&#x2064;</mo><mrow><mn>1</mn><mo>/</mo><mn>2</mn></mrow><mo>+</mo>{a}</mrow>"),
+    ("prefix-tilde", "<mrow><mo>&#x223C;</mo>{a}</mrow>"),
+    ("omission", "<mrow>{a}<mo>+</mo><mo>?</mo><mo>=</mo>{b}</mrow>"),
+    ("underbar", "<mrow><munder><mi>x</mi><mo>&#xAF;</mo></munder><mo>+</mo><munder><mrow><mi>x</mi><mo>+</mo>{a}</mrow><mo>_</mo></munder></mrow>"),
+    ("trailing-bar", "<mrow><mi>f</mi><mo>|</mo><mo>=</mo>{a}</mrow>"),
+    ("wide-space", "<mrow>{a}<mspace width='2em'/>{b}<mtext>&#x2003;&#x2003;</mtext>{c}</mrow>"),
+    ("long-division", "<menclose notation='longdiv'>{a}</menclose>"),
+    ("actuarial-and-radical", "<mrow><menclose notation='actuarial'>{a}</menclose><mo>+</mo><menclose notation='radical'>{b}</menclose><mo>+</mo><menclose notation='top bottom'>{c}</menclose></mrow>"),
 ]
 
 SLOT_LITS = {"a": "41_17", "b": "52_06", "c": "63_35", "d": "74_89"}
